@@ -5,6 +5,7 @@ CONSTANTS
   MaxE = 4
   StartVals = {0, 1, 2, 3, 4}
   Defaults = {0, 1, 3}
+  FamIdx = {1, 2, 3, 4, 5, 6}
   Bounds <- BoundsInf12
 SPECIFICATION MCSpec
 INVARIANT ConfigInClass LfpIsLeast MCTypeOK MCStepBound MCBelowLFP MCAboveStart MCWorklistInv MCResult MCHonestStabilized MCStabilizedIsLeast
